@@ -196,6 +196,17 @@ static void run_g5(bool thorough) {
     RefG B; B.g.NT = 1; B.g.T = 3; { int T0 = ref::TERM, E = ref::TERM + 4; B.names = {"(", ")", "x", "<eof>", "<error_recovery_token>"}; rule(B, 0, {T0, 0, T0 + 1}); rule(B, 0, {T0 + 2}); rule(B, 0, {T0, E, T0 + 1}); finish(B); }
     std::vector<size_t> depths = {1, 2, 15, 16, 17, 255, 256, 257, 1022, 1023, 1024, 1025, 4096, 65532, 65533, 65534, 65535, 65536, 65537, 70000};
     if (thorough) for (size_t d : {32767u, 32768u, 32769u, 131071u, 131072u, 131073u, 200000u, 300000u}) depths.push_back(d);
+    // many recoveries in one parse: the documented procedure has no limit on the number of errors
+    {
+        static const parser pr(ds, terms('x', ';', 'y'), nterms(ds), rules(ds() >= HR<0>{}, ds(ds, 'x', ';') >= HR<1>{}, ds(ds, error, ';') >= HR<2>{}));
+        RefG R; R.g.NT = 1; R.g.T = 3; { int T0 = ref::TERM, E = ref::TERM + 4; R.names = {"x", ";", "y", "<eof>", "<error_recovery_token>"}; rule(R, 0, {}); rule(R, 0, {0, T0, T0 + 1}); rule(R, 0, {0, E, T0 + 1}); finish(R); }
+        for (size_t k : {10u, 999u, 1000u, 1001u, 1002u, 4096u, 65535u, 65536u, 70000u}) {
+            if (!thorough && k > 5000) continue;
+            std::string in; for (size_t i = 0; i < k; ++i) in += "y;x;";
+            deep_case(pr, R, "x;y", in, "a parse with k syntax errors, each recovered");
+            deep_case(pr, R, "x;y", in + "y", "a parse with k recovered syntax errors and a final unrecoverable one");
+        }
+    }
     for (size_t d : depths) {
         deep_case(pa, A, "abc", std::string(d, 'a') + "bcb", "right recursion, error after the last shift (one state popped)");
         deep_case(pa, A, "abc", std::string(d, 'a') + "cb", "right recursion, error in a state that accepts the error symbol (nothing popped)");
